@@ -574,13 +574,45 @@ func checkC13(c *Ctx) {
 					if sub, ok := m[lf.Path[0]].(map[string]interface{}); ok {
 						m["shared_alias"] = sub
 					} else if m[lf.Path[0]] == nil && c.R.Chance(1, 2) {
-						m[lf.Path[0]] = map[interface{}]interface{}{lf.Path[1]: "eu", 7: 1, "emails": []interface{}{map[interface{}]interface{}{"addr": "a@b"}, "x"}}
+						ym := map[interface{}]interface{}{lf.Path[1]: "eu", 7: 1, "emails": []interface{}{map[interface{}]interface{}{"addr": "a@b"}, "x"},
+							"child": map[string]interface{}{"port": 80, "deep": map[string]interface{}{"k": "v"}}}
+						if len(lf.Path) > 2 {
+							// an ordinary object below the yaml-shaped one, on the path: it stays the caller's
+							ym[lf.Path[1]] = map[string]interface{}{lf.Path[2]: 1, "other": map[string]interface{}{"k": 1}}
+						}
+						m[lf.Path[0]] = ym
+						m["yaml_child_alias"] = ym["child"]
 					}
 				}
 				if len(lf.Path) == 1 && c.R.Chance(1, 8) {
 					m[lf.Path[0]] = map[string]interface{}{"k": 1, "n": map[string]interface{}{"z": 2.5}}
 				}
-				if lf.T == NCmp && (strings.HasSuffix(lf.Lit.Kind, "list") || lf.Lit.Kind == "str") && c.R.Chance(1, 3) {
+				if lf.T == NCmp && strings.HasSuffix(lf.Lit.Kind, "list") && len(lf.Path) == 1 && c.R.Chance(1, 4) {
+					// a short []interface{} attribute (what a JSON decoder gives) at a list comparison: next to a typed slice at
+					// another list comparison of the same rule this is what a shared scratch buffer would be filled from
+					l := []interface{}{}
+					for _, e := range lf.Lit.Elems {
+						if len(l) >= 2 {
+							break
+						}
+						switch lf.Lit.Kind {
+						case "ilist":
+							if n, err := strconv.ParseInt(strings.TrimSpace(e), 10, 64); err == nil {
+								l = append(l, int(n))
+							}
+						case "dlist":
+							if f, err := strconv.ParseFloat(strings.TrimSpace(e), 64); err == nil {
+								l = append(l, f)
+							}
+						default:
+							l = append(l, strings.Trim(e, "\""))
+						}
+					}
+					if len(l) > 0 {
+						m[lf.Path[0]] = l
+						c.count("short_interface_slice_at_a_list_comparison")
+					}
+				} else if lf.T == NCmp && (strings.HasSuffix(lf.Lit.Kind, "list") || lf.Lit.Kind == "str") && c.R.Chance(1, 3) {
 					// a typed slice of many elements in no particular order where a list literal is compared: a set
 					// operation that sorts or de-duplicates in place would reorder the caller's slice
 					var v interface{}
@@ -649,6 +681,16 @@ func checkC13(c *Ctx) {
 		var ob Obs
 		if ev != nil {
 			ob = observeProcess(ev, m)
+			if c.R.Chance(1, 2) {
+				// the same evaluator again on the same object, and Reset: whatever the first call keeps for later
+				// (converted copies, buffers, a diagnostic that refers into the object) must not be written through
+				observeProcess(ev, m)
+				func() {
+					defer func() { recover() }()
+					ev.Reset()
+				}()
+				c.count("second_call_and_reset_on_the_same_object")
+			}
 		}
 		after1 := snap(m)
 		rulesEvaluate(s, m)
